@@ -1359,16 +1359,16 @@ class Result:
             Xs = dict(zip(sorted(Xs,key=str),count()))
 
         try:
-            rows = sorted(rows)
+            rows = sorted(rows) #only for a stable column order
         except:
-            sorted_ = False
-        else:
-            sorted_ = True
+            pass
 
+        #we group by hash because sorted() does not place equal keys side
+        #by side when values are only partially ordered (e.g., frozensets)
         data = {'x': list(Xs.keys())}
-        for _l, group in grouper(rows, key=itemgetter(0), val=itemgetter(slice(1,None)), sorted_=sorted_):
+        for _l, group in grouper(rows, key=itemgetter(0), val=itemgetter(slice(1,None)), sorted_=False):
             Y = [[float('nan')]]*len(Xs)
-            for _x, group in grouper(group, key=itemgetter(0), val=itemgetter(1), sorted_=sorted_):
+            for _x, group in grouper(group, key=itemgetter(0), val=itemgetter(1), sorted_=False):
                 Y[Xs[_x]] = list(chain.from_iterable(group))
             data[_l] = Y
         return Table(data)
@@ -1956,15 +1956,10 @@ class Result:
         indexes  = list(self._grouped_ys(p,l,'environment_id','learner_id','evaluator_id',y=None,card='S'))
         n_levels = len(set(map(itemgetter(1),indexes)))
 
-        try:
-            indexes = sorted(indexes)
-        except:
-            sorted_=False
-        else:
-            sorted_=True
-
+        #we group by hash because sorted() does not place equal keys side
+        #by side when values are only partially ordered (e.g., frozensets)
         to_keep, to_remove, n_larger, n_smaller = [], [], 0, 0
-        for _, group in grouper(indexes,key=itemgetter(0), sorted_=sorted_):
+        for _, group in grouper(indexes,key=itemgetter(0), sorted_=False):
             group = list(group)
             if len(group) > n_levels:
                 n_larger += 1
